@@ -103,6 +103,9 @@ namespace ratio
         LOG("building the causal graph..");
         assert(slv.root_level());
 
+#ifdef DEFERRABLE_FLAWS
+        size_t deferred = 0; // the number of flaws which have been deferred in a row..
+#endif
         while (std::any_of(get_flaws().cbegin(), get_flaws().cend(), [](flaw *f)
                            { return is_positive_infinite(f->get_estimated_cost()); }))
         {
@@ -113,10 +116,15 @@ namespace ratio
             flaw_q.pop_front();
             assert(!c_f->is_expanded());
             if (slv.get_sat_core().value(c_f->get_phi()) != False)
-                if (is_deferrable(*c_f)) // we have a deferrable flaw: we can postpone its expansion..
+                if (deferred < flaw_q.size() + 1 && is_deferrable(*c_f))
+                { // we have a deferrable flaw: we can postpone its expansion..
                     flaw_q.push_back(c_f);
+                    deferred++;
+                    continue;
+                }
                 else
-                    expand_flaw(*c_f); // we expand the flaw..
+                    expand_flaw(*c_f); // we expand the flaw (also when every queued flaw has just been deferred: postponing again would loop forever)..
+            deferred = 0;
 #else
             size_t q_size = flaw_q.size();
             for (size_t i = 0; i < q_size; ++i)
